@@ -20,7 +20,7 @@ use std::fmt::Write as _;
 use std::path::{Path, PathBuf};
 use std::process::Command;
 
-const VERSION: &str = "c17-v3";
+const VERSION: &str = "c17-v4";
 
 /// The checkout under test: /repo, or the one named by VERIF_REPO (same rule as lib/vcheck.py).
 fn repo() -> String {
@@ -28,14 +28,30 @@ fn repo() -> String {
     std::fs::canonicalize(&r).map(|p| p.to_string_lossy().to_string()).unwrap_or(r)
 }
 
+/// The verification tree this binary belongs to: the harness is built into `<tree>/.cache/..`,
+/// so a copy of the tree (a developer's private copy) keeps its own scratch crates and caches.
+fn verif_root() -> String {
+    if let Ok(exe) = std::env::current_exe() {
+        let mut p = exe.as_path();
+        while let Some(parent) = p.parent() {
+            if p.file_name().map(|n| n == ".cache").unwrap_or(false) {
+                return parent.to_string_lossy().to_string();
+            }
+            p = parent;
+        }
+    }
+    "/verif".to_string()
+}
+
 /// scratch crates, target dirs and cached results; one tree per checkout under test
 fn root() -> String {
     let r = repo();
+    let v = verif_root();
     if r == "/repo" {
-        "/verif/.cache/c17".to_string()
+        format!("{v}/.cache/c17")
     } else {
         let tag: String = r.chars().map(|c| if c.is_ascii_alphanumeric() { c } else { '_' }).collect();
-        format!("/verif/.cache/alt-{}/c17", tag.trim_matches('_'))
+        format!("{v}/.cache/alt-{}/c17", tag.trim_matches('_'))
     }
 }
 
@@ -402,8 +418,17 @@ const RAW_KW: &[&str] =
 const ARG_NAMES: &[&str] = &[
     "a", "b", "c", "x", "y", "n", "key", "val", "x_1", "aB", "_x", "__", "r#type", "r#fn", "r#in", "r#ref", "req",
     "request", "resp", "msg", "service", "stub", "config", "transport", "new_client", "context", "context_", "ctx_",
-    "_ctx", "r#final", "Self_", "self_",
+    "_ctx", "r#final", "Self_", "self_", "response", "serve", "args", "new", "client", "dispatch", "S", "T", "Stub",
 ];
+/// identifiers the expansion itself binds or mentions (read off the expansion: the parameters and
+/// locals of Serve::serve, of the client fns, of fn new/from, the field of the server struct,
+/// the generic parameters); arguments with these names are the interesting collisions
+const EXPANSION_NAMES: &[&str] = &[
+    "ctx", "context", "req", "request", "resp", "response", "msg", "service", "serve", "stub", "config", "transport",
+    "new_client", "client", "dispatch", "args", "new", "S", "T", "Stub",
+];
+/// the request context as an ARGUMENT type: makes a collision with `ctx`/`context` type-check
+const TY_CONTEXT: u32 = 100;
 const SVC_NAMES: &[&str] =
     &["Foo", "Calc", "r#trait", "r#struct", "svc_1", "Serve", "Client", "Request", "KV", "r#Type", "Hello_World"];
 const DATA_TYPES: &[u32] = &[1, 2, 3, 4, 5, 6, 7, 8];
@@ -478,7 +503,12 @@ fn gen_args(rng: &mut Rng, n: usize, same_ty: Option<u32>) -> Vec<Arg> {
         if !used.insert(id.txt.clone()) {
             continue;
         }
-        let ty = same_ty.unwrap_or_else(|| *rng.pick(DATA_TYPES));
+        let ty = match same_ty {
+            Some(t) => t,
+            None if EXPANSION_NAMES.contains(&id.txt.as_str()) && rng.chance(1, 3) => TY_CONTEXT,
+            None if rng.chance(1, 12) => TY_CONTEXT,
+            None => *rng.pick(DATA_TYPES),
+        };
         v.push(Arg { name: id, ty });
     }
     v
@@ -514,7 +544,7 @@ fn gen_opts(rng: &mut Rng) -> Vec<Opt> {
 fn gen_accepted(rng: &mut Rng) -> Def {
     let nm = rng.weighted(&[0, 2, 4, 5, 4, 3, 2]);
     let clones = rng.chance(3, 5);
-    let clone_ty = *rng.pick(DATA_TYPES);
+    let clone_ty = if rng.chance(1, 8) { TY_CONTEXT } else { *rng.pick(DATA_TYPES) };
     let clone_n = rng.range(1, 4) as usize;
     let mut camels = BTreeSet::new();
     let mut names = BTreeSet::new();
@@ -590,7 +620,12 @@ fn gen_special(rng: &mut Rng) -> Def {
         d.methods.push(simple_method("a", &[("x", 1)], Some(1)));
     }
     let i = rng.below(d.methods.len() as u64) as usize;
-    let kind = rng.below(24);
+    // kinds 24..: arguments that collide with identifiers of the expansion at a type that makes
+    // the collision type-check; 24 (the only real capture: `ctx: Context`) is drawn most often
+    let kind = match rng.weighted(&[24, 5, 2, 2, 2]) {
+        0 => rng.below(24),
+        k => 23 + k as u64,
+    };
     match kind {
         0 => {
             // same camel-case name, same signature: the dangerous sibling
@@ -682,16 +717,69 @@ fn gen_special(rng: &mut Rng) -> Def {
             flip_raw(&mut m.name);
             d.methods.push(m);
         }
-        _ => {
+        23 => {
             d.methods[i].args.insert(0, Arg { name: Ident::parse("self"), ty: 1 });
             d.methods[i].args.push(Arg { name: Ident::parse("self"), ty: 2 });
+        }
+        24 => {
+            // a relay forwarding a context as payload under the name the server arm uses for the
+            // request's context: must be rejected; if it ever compiles, the run shows who got what
+            let m = &mut d.methods[i];
+            m.args.retain(|a| a.name.txt != "ctx");
+            let at = rng.below(m.args.len() as u64 + 1) as usize;
+            m.args.insert(at, Arg { name: Ident::parse("ctx"), ty: TY_CONTEXT });
+            m.attrs.retain(|a| !matches!(a, Attr::Cfg(false)));
+        }
+        25 => {
+            // every other identifier of the expansion, at the type Context: accepted, and correct
+            let m = &mut d.methods[i];
+            m.args.clear();
+            let mut names: Vec<&str> = EXPANSION_NAMES.iter().copied().filter(|n| *n != "ctx").collect();
+            while m.args.len() < 5 && !names.is_empty() {
+                let n = names.remove(rng.below(names.len() as u64) as usize);
+                m.args.push(Arg { name: Ident::parse(n), ty: TY_CONTEXT });
+            }
+        }
+        26 => {
+            // `ctx: Context` on a method that is cfg'd out: nothing is generated for it but the
+            // response variant; accepted
+            let mut m = simple_method("relay_off", &[("ctx", TY_CONTEXT), ("context", TY_CONTEXT)], Some(TY_CONTEXT));
+            m.attrs.push(Attr::Cfg(false));
+            d.methods.retain(|o| snake_to_camel(&o.name.txt) != "RelayOff");
+            d.methods.push(m);
+        }
+        _ => {
+            // `ctx` and `context` together, both contexts, next to same-typed siblings
+            d.methods[i].args = vec![
+                Arg { name: Ident::parse("context"), ty: TY_CONTEXT },
+                Arg { name: Ident::parse("ctx"), ty: TY_CONTEXT },
+            ];
+            d.methods[i].attrs.retain(|a| !matches!(a, Attr::Cfg(false)));
+            let ret = d.methods[i].ret;
+            if !d.methods.iter().any(|o| snake_to_camel(&o.name.txt) == "Twin") {
+                d.methods.push(simple_method("twin", &[("context", TY_CONTEXT), ("ctx_", TY_CONTEXT)], ret));
+            }
         }
     }
     d
 }
 
+/// tarpc's Context is Clone + Debug + serde, but neither Hash nor PartialEq: keep the derive
+/// options of a definition that carries one within that (the derives are not what is tested)
+fn fit_derives(d: &mut Def) {
+    let has_ctx = d.methods.iter().any(|m| m.ret == Some(TY_CONTEXT) || m.args.iter().any(|a| a.ty == TY_CONTEXT));
+    if has_ctx {
+        for o in &mut d.opts {
+            if let Opt::Derive(ids) = o {
+                ids.retain(|i| *i == 2);
+            }
+        }
+    }
+}
+
 pub fn gen(rng: &mut Rng) -> Def {
-    let d = if rng.chance(1, 7) { gen_special(rng) } else { gen_accepted(rng) };
+    let mut d = if rng.chance(1, 7) { gen_special(rng) } else { gen_accepted(rng) };
+    fit_derives(&mut d);
     // through the script syntax, so that what is generated is exactly what a script denotes
     parse(&show(&d)).unwrap_or(d)
 }
@@ -722,6 +810,24 @@ pub fn sweep(mut emit: impl FnMut(Def)) {
                 vis: 'n',
                 opts: vec![Opt::Derive(vec![2])],
                 methods: vec![simple_method("m", &[(x, 2), (y, 2)], Some(2)), simple_method("n", &[(y, 2), (x, 2)], Some(2))],
+            };
+            emit(d);
+        }
+    }
+    // every identifier of the expansion as an argument of type Context, first and second
+    for x in EXPANSION_NAMES {
+        for y in ["a", "ctx", "context", "request"] {
+            if x == &y {
+                continue;
+            }
+            let d = Def {
+                svc: Ident::parse("Relay"),
+                vis: 'p',
+                opts: vec![Opt::Derive(vec![2])],
+                methods: vec![
+                    simple_method("forward", &[(x, TY_CONTEXT), (y, TY_CONTEXT)], Some(TY_CONTEXT)),
+                    simple_method("back", &[(y, TY_CONTEXT), (x, TY_CONTEXT)], Some(TY_CONTEXT)),
+                ],
             };
             emit(d);
         }
@@ -1285,7 +1391,7 @@ fn prepare_crate(dir: &Path, name: &str, bin: bool, extra: &str) {
     write_if_changed(&dir.join("Cargo.toml"), &manifest(name, bin, extra));
     let lock = dir.join("Cargo.lock");
     if !lock.exists() {
-        std::fs::copy("/verif/harness/Cargo.lock", &lock).ok();
+        std::fs::copy(format!("{}/harness/Cargo.lock", verif_root()), &lock).ok();
     }
     // stale module files of an earlier batch
     if let Ok(rd) = std::fs::read_dir(dir.join("src")) {
@@ -1512,6 +1618,15 @@ impl FromN for Vec<u8> { fn from_n(n: u64) -> Self { vec![n as u8, 9] } }
 impl ToN for Option<u8> { fn to_n(&self) -> u64 { self.map(|x| x as u64).unwrap_or(u64::MAX) } }
 impl FromN for Option<u8> { fn from_n(n: u64) -> Self { Some(n as u8) } }
 
+impl ToN for Context {
+    fn to_n(&self) -> u64 {
+        let d = self.deadline.saturating_duration_since(BASE.with(|b| *b)).as_secs();
+        let t = u128::from(self.trace_context.trace_id) as u64;
+        if d == t { t } else { u64::MAX }
+    }
+}
+impl FromN for Context { fn from_n(n: u64) -> Self { mk_ctx(n, n) } }
+
 thread_local! { static BASE: Instant = Instant::now(); }
 pub fn mk_ctx(d: u64, t: u64) -> Context {
     let mut c = tarpc::context::current();
@@ -1693,7 +1808,7 @@ fn phase_run(defs: &[(usize, &Def)]) -> BTreeMap<usize, RunObs> {
         ),
     );
     if !ws.join("Cargo.lock").exists() {
-        std::fs::copy("/verif/harness/Cargo.lock", ws.join("Cargo.lock")).ok();
+        std::fs::copy(format!("{}/harness/Cargo.lock", verif_root()), ws.join("Cargo.lock")).ok();
     }
     let (ok, stdout, stderr) = cargo(None, &["build", "--offline", "--quiet"], &ws, "target-stable");
     if !ok {
@@ -1797,6 +1912,15 @@ fn tags_of(d: &Def, v: &Verdict, compiled: bool) -> Vec<String> {
     }
     if d.methods.iter().any(|m| m.args.iter().any(|a| a.name.txt == "context")) {
         t.insert("arg-named-context");
+    }
+    if d.methods.iter().any(|m| m.args.iter().any(|a| EXPANSION_NAMES.contains(&a.name.txt.as_str()))) {
+        t.insert("arg-named-like-expansion-ident");
+    }
+    if d.methods.iter().any(|m| m.args.iter().any(|a| a.ty == TY_CONTEXT)) {
+        t.insert("context-typed-arg");
+    }
+    if d.methods.iter().any(|m| m.enabled() && m.args.iter().any(|a| a.ty == TY_CONTEXT && a.name.txt == "ctx")) {
+        t.insert("ctx-context-arg");
     }
     match d.opts.as_slice() {
         [] => t.insert("derive-default"),
